@@ -20,7 +20,7 @@ RULE = (
     "Parameters: Hypothesis draws estimators with an explicit Config over definitions with 0..3 controls, 1..3 sensors of "
     "1..3 readings; checked: set_params(**get_params()) and sklearn.base.clone leave get_params() deep-equal (ui.Model "
     "compared field by field); for EVERY Config field, set_params(field=generated value) changes exactly that field and "
-    "nothing else; an unknown parameter name raises; _inverse_flatten_scoring_params(_flatten_scoring_params()) "
+    "nothing else, and 2..4 fields passed in one call (generated order) all take their values; an unknown parameter name raises; _inverse_flatten_scoring_params(_flatten_scoring_params()) "
     "reproduces both noise maps. Fit: small Euler-form estimators and generated training matrices (6..24 rows, values in "
     "+-[0.1,3], optionally scaled); outcome must be MinimizationFailure, or an estimator whose symbolic_model, "
     "sensor_models, calibration_map and config equal a snapshot taken before, whose noise maps have exactly the "
@@ -50,7 +50,9 @@ def param_cases(draw):
     m = draw(models.model_specs(names=draw(st.sampled_from(["ident", "free"])), n_state=(1, 3), n_control=(0, 3), n_calib=(0, 1),
                                 n_sensors=(1, 3), n_readings=(1, 3), depth=1, sensor_depth=1, allow_positive=False, cse=False))
     sets = {k: draw(v) for k, v in FIELDS.items()}
-    return {"layer": "params", "model": m, "set": sets, "bogus": draw(st.sampled_from(["nope", "max_dt", "process_noises", "Config", "x"]))}
+    names_ = draw(st.lists(st.sampled_from(sorted(FIELDS)), min_size=2, max_size=4, unique=True))
+    multi = {k: draw(FIELDS[k]) for k in draw(st.permutations(names_))}
+    return {"layer": "params", "model": m, "set": sets, "multi": multi, "bogus": draw(st.sampled_from(["nope", "max_dt", "process_noises", "Config", "x"]))}
 
 
 def model_fields(um):
@@ -100,6 +102,18 @@ def param_case(spec, ctx):
                 ctx.fail(f"set_params-touched-other:{kk}", f"setting {field}", spec)
         if after["symbolic_model"] is not base["symbolic_model"]:
             ctx.fail("set_params-touched-other:symbolic_model", f"setting {field}", spec)
+    # several configuration fields in ONE call: each passed field takes its value, the others keep theirs
+    multi = spec.get("multi") or {}
+    if len(multi) >= 2:
+        before = dataclasses.asdict(ad.get_params()["config"])
+        with ctx.formak("set_params(multi)", spec):
+            ad.set_params(**multi)
+        want = dict(before)
+        want.update(multi)
+        got = dataclasses.asdict(ad.get_params()["config"])
+        if got != want:
+            ctx.fail("set_params-several-fields-in-one-call", f"set {multi}: config {before} -> {got}, expected {want}", spec)
+        ctx.event("multi_field_set_params")
     try:
         ad.set_params(**{spec["bogus"]: 1})
         ctx.fail("unknown-parameter-accepted", f"set_params({spec['bogus']}=1)", spec)
@@ -117,7 +131,7 @@ def param_case(spec, ctx):
     pn = {str(k): v for k, v in back["process_noise"].items()}
     if pn != {c_: m["process_noise"][c_] for c_ in m["control"]}:
         ctx.fail("flatten-roundtrip:process_noise", f"{pn} vs {m['process_noise']}", spec)
-    if {k: dict(v) for k, v in back["sensor_noises"].items()} != m["sensor_noises"]:
+    if {k: {str(r): x for r, x in v.items()} for k, v in back["sensor_noises"].items()} != m["sensor_noises"]:
         ctx.fail("flatten-roundtrip:sensor_noises", f"{back['sensor_noises']} vs {m['sensor_noises']}", spec)
     ctx.event("param_case")
     if len(m["control"]) >= 2 or any(len(r) >= 2 for r in m["sensors"].values()):
@@ -146,7 +160,7 @@ def fit_case(spec, ctx):
     snap_model = ad.symbolic_model
     snap = {"sensor_models": copy.deepcopy(ad.sensor_models), "calibration_map": copy.deepcopy(ad.calibration_map), "config": ad.config}
     keys_pn = {str(k) for k in ad.process_noise}
-    keys_sn = {k: set(v) for k, v in ad.sensor_noises.items()}
+    keys_sn = {k: {str(r) for r in v} for k, v in ad.sensor_noises.items()}
     before = (dict(m["process_noise"]), copy.deepcopy(m["sensor_noises"]))
     try:
         with ctx.watchdog(240, "fit-timeout"):
@@ -177,7 +191,7 @@ def fit_case(spec, ctx):
         ctx.fail("fit-changed-definition", "symbolic_model / sensor_models / calibration_map / config differ after fit", spec)
     if {str(k) for k in ad.process_noise} != keys_pn:
         ctx.fail("fit-noise-keys:process", f"{set(ad.process_noise)} vs {keys_pn}", spec)
-    if set(ad.sensor_noises) != set(keys_sn) or any(set(ad.sensor_noises[k]) != keys_sn[k] for k in keys_sn):
+    if set(ad.sensor_noises) != set(keys_sn) or any({str(r) for r in ad.sensor_noises[k]} != keys_sn[k] for k in keys_sn):
         ctx.fail("fit-noise-keys:sensor", f"{ad.sensor_noises} vs {keys_sn}", spec)
     vals_p = [float(v) for v in ad.process_noise.values()]
     vals_s = [float(v) for r in ad.sensor_noises.values() for v in r.values()]
@@ -185,14 +199,14 @@ def fit_case(spec, ctx):
         ctx.fail("fit-nonfinite-noise", f"{ad.process_noise} {ad.sensor_noises}", spec)
     if not all(v > 0 for v in vals_p):
         ctx.fail("fit-nonpositive-process-noise", f"{ad.process_noise}", spec)
-    moved = {str(k): float(v) for k, v in ad.process_noise.items()} != before[0] or {k: dict(v) for k, v in ad.sensor_noises.items()} != before[1]
+    moved = {str(k): float(v) for k, v in ad.process_noise.items()} != before[0] or {k: {str(r): x for r, x in v.items()} for k, v in ad.sensor_noises.items()} != before[1]
     if moved:
         ctx.event("fit:noise-changed")
     if (len(m["control"]) >= 2 or any(len(r) >= 2 for r in m["sensors"].values())) and moved:
         ctx.nontrivial(spec)
     ctx.sample({"layer": "fit", "control": m["control"], "sensors": {k: sorted(v) for k, v in m["sensors"].items()}, "rows": len(X),
                 "noise_before": before, "process_noise_after": {str(k): float(v) for k, v in ad.process_noise.items()},
-                "sensor_noises_after": {k: {r: float(v) for r, v in d.items()} for k, d in ad.sensor_noises.items()}}, limit=4)
+                "sensor_noises_after": {k: {str(r): float(v) for r, v in d.items()} for k, d in ad.sensor_noises.items()}}, limit=4)
 
 
 def case(spec, ctx):
